@@ -302,7 +302,7 @@ let run_bytes op =
   | "bcompress" -> let pd = read_bpdesc () in let r = read_brule () in let d = read_dir_opt () in
     show string_of_buf (bcompress pd r d)
   | "bdecompress" -> let s = next_buf () in let r = read_brule () in let d = read_dir_opt () in
-    show string_of_buf (bdecompress s r d)
+    show string_of_buf (bdecompress_c s r d)      (* byte-level decompress including the compute stage (ComputeBytes.v) *)
   | "bparse" -> let st = stack_of (next ()) in let b = next_buf () in
     show (fun (fs, pl) ->
             String.concat " " (List.map (fun f -> Printf.sprintf "%s%d/%d/%s" (string_of_proto f.bf_id.fproto) (int_of_z f.bf_id.fidx) (int_of_z f.bf_pos) (string_of_buf f.bf_val)) fs)
